@@ -19,6 +19,7 @@ import (
 	"context"
 	"fmt"
 	"net"
+	"net/http"
 	"strconv"
 
 	"github.com/matrix-org/gomatrixserverlib/spec"
@@ -38,13 +39,13 @@ type ResolutionResult struct {
 // request to the server using a given server name.
 // Returns an error if the server name isn't valid.
 func ResolveServer(ctx context.Context, serverName spec.ServerName) (results []ResolutionResult, err error) {
-	return resolveServer(ctx, serverName, true)
+	return resolveServer(ctx, serverName, true, nil)
 }
 
 // resolveServer does the same thing as ResolveServer, except it also requires
 // the checkWellKnown parameter, which indicates whether a .well-known file
-// should be looked up.
-func resolveServer(ctx context.Context, serverName spec.ServerName, checkWellKnown bool) (results []ResolutionResult, err error) {
+// should be looked up, and the transport to look it up with (http.DefaultTransport if nil).
+func resolveServer(ctx context.Context, serverName spec.ServerName, checkWellKnown bool, wellKnownTransport http.RoundTripper) (results []ResolutionResult, err error) {
 	host, port, valid := spec.ParseAndValidateServerName(serverName)
 	if !valid {
 		err = fmt.Errorf("Invalid server name")
@@ -94,10 +95,10 @@ func resolveServer(ctx context.Context, serverName spec.ServerName, checkWellKno
 	if checkWellKnown {
 		// 3. If the hostname is not an IP literal
 		var result *WellKnownResult
-		result, err = LookupWellKnown(ctx, serverName)
+		result, err = lookupWellKnown(ctx, serverName, wellKnownTransport)
 		if err == nil {
 			// We don't want to check .well-known on the result
-			return resolveServer(ctx, result.NewAddress, false)
+			return resolveServer(ctx, result.NewAddress, false, nil)
 		}
 	}
 
